@@ -1,4 +1,79 @@
-(** C06 — property theorems (placeholder while the check is brought up). *)
-From SV Require Import CfgState.Model CfgState.Gen CfgState.GenSteps.
-Theorem gen_atomic : forall k, atomic (steps_of k) = true.
-Proof. intros []; vm_compute; reflexivity. Qed.
+(** C06 — applying the computed difference always reaches the target.
+    Property theorems (statements only; proofs are in CfgState/DiffProofs.v). *)
+From stdpp Require Import gmap strings.
+From Coq Require Import NArith.
+From SV Require Import CfgState.Model CfgState.Spec CfgState.Gen CfgState.GenSteps CfgState.DiffProofs.
+Open Scope N_scope.
+
+(** [DiffMap] (the merge-join used for clusters and backends) is sound and
+    complete on strictly key-sorted inputs, for any key order: it reports
+    exactly the keys only in [other] (Added), only in [my] (Removed), and in
+    both with different values (Changed). *)
+Theorem diff_map_correct :
+  forall (K V : Type) (kcmp : K -> K -> comparison) (veq : V -> V -> bool),
+    (forall a, kcmp a a = Eq) -> (forall a b, kcmp a b = Eq -> a = b) ->
+    (forall a b, kcmp b a = CompOpp (kcmp a b)) ->
+    (forall a b c, kcmp a b = Lt -> kcmp b c = Lt -> kcmp a c = Lt) ->
+    forall my other, ssorted kcmp my -> ssorted kcmp other ->
+    forall k r,
+      In (k, r) (diff_map kcmp veq my other) <->
+      match r with
+      | DAdded => ~ has my k /\ has other k
+      | DRemoved => has my k /\ ~ has other k
+      | DChanged => exists v1 v2, In (k, v1) my /\ In (k, v2) other /\ veq v1 v2 = false
+      end.
+Proof. intros. eapply dm_correct; eauto. Qed.
+
+(** ... in particular for the cluster map (keys compared with [N.compare]) *)
+Theorem diff_map_correct_clusters :
+  forall (veq : cluster -> cluster -> bool) my other,
+    ssorted N.compare my -> ssorted N.compare other ->
+    forall k r,
+      In (k, r) (diff_map N.compare veq my other) <->
+      match r with
+      | DAdded => ~ has my k /\ has other k
+      | DRemoved => has my k /\ ~ has other k
+      | DChanged => exists v1 v2, In (k, v1) my /\ In (k, v2) other /\ veq v1 v2 = false
+      end.
+Proof.
+  intros. eapply dm_correct; eauto.
+  - apply N.compare_refl.
+  - apply N.compare_eq.
+  - intros a b. apply N.compare_antisym.
+  - intros a b c. rewrite !N.compare_lt_iff. apply N.lt_trans.
+Qed.
+
+(** the difference between equal configurations is empty (every section) *)
+Theorem diff_same_empty : forall a, diff a a = [].
+Proof. exact DiffProofs.diff_same_empty. Qed.
+
+(** Full statement (NOT proved; claimed partial):
+      apply_diff : Inv5 A -> Inv5 B -> ~ Known A B ->
+        replay (diff A B) A = (B', 0) /\ norm_set B' = norm_set B
+    where Known A B = "A or B holds, in one tcp (or udp) frontend bucket, two
+    frontends with the same address".  What is proved instead: the merge-join,
+    the empty self-difference, and that the faithful model refutes the
+    statement inside the Known class (the witness is corpus/C06/
+    tfront_same_address_two_tags.case and is replayed on the implementation on
+    every run): *)
+Theorem apply_diff_refuted_known_tfront :
+  let fp := fun _ : N => @None N in
+  let nm := fun _ : N => @None (list N) in
+  let hc := fun _ : N => true in
+  let d := dispatch fp nm hc steps_of in
+  let B := fst (d empty_state (RAddTFront false 0 (TFront 1 0))) in
+  let A := fst (d B (RAddTFront false 0 (TFront 1 1))) in
+  reachable fp nm hc steps_of A /\ reachable fp nm hc steps_of B
+  /\ bool_decide (norm_set (fst (replay fp nm hc steps_of (diff A B) A)) = norm_set B) = false.
+Proof.
+  cbv zeta. split; [apply reach_step, reach_step, reach_empty|].
+  split; [apply reach_step, reach_empty|]. vm_compute. reflexivity.
+Qed.
+
+(** non-vacuity of [diff_map_correct]: two sorted cluster lists with one key of each kind *)
+Example diff_map_nonvacuous :
+  diff_map N.compare (fun a b : cluster => bool_decide (a = b))
+           [(1, Cluster None 0); (2, Cluster None 0); (3, Cluster None 0)]
+           [(2, Cluster None 0); (3, Cluster None 5); (4, Cluster None 0)]
+  = [(1, DRemoved); (3, DChanged); (4, DAdded)].
+Proof. vm_compute. reflexivity. Qed.
